@@ -155,8 +155,8 @@ def run(ctx):
     # The working graphs of Louvain are Graph<usize, _>: node NAMES and node POSITIONS have the same type, so
     # the compiler cannot tell them apart here (elsewhere T is abstract and it can).  Domain discipline:
     # an argument bound to a parameter the Graph API declares as `usize` (a position) must derive from a
-    # position source; an argument bound to a parameter declared `T` (a name) must not derive only from one.
-    ctx.rule("R-C13-5", "where the node name type is usize (Louvain's working graphs), position parameters of the Graph API get positions and name parameters get names")
+    # position source.
+    ctx.rule("R-C13-5", "where the node name type is usize (Louvain's working graphs), position parameters of the Graph API get positions")
     POS_SOURCES = ("get_node_index", "enumerate", "position", "number_of_nodes")
     n_calls = n_pos = 0
     for p in sorted(prog.bodies):
@@ -180,7 +180,7 @@ def run(ctx):
                 if i == 0 or i >= len(t.args):
                     continue
                 decl = ty.replace("&", "").replace("mut ", "").strip()
-                if decl not in ("usize", "T"):
+                if decl != "usize":
                     continue
                 # provenance inside this function and the crate helpers it calls (not the whole history of the graph)
                 sl = flows.slice(cb.path, cfl._op_reads(t.args[i]), up=False, down=True, data_only=True, max_nodes=60000, max_stack=2)
@@ -198,8 +198,8 @@ def run(ctx):
                 if decl == "usize":
                     n_pos += 1
                     ctx.require(from_pos, "R-C13-5", key, "position argument of %s derives from a position source" % short(tp).split("::")[-1], "%s takes a node POSITION but is given a value that derives from no position source (%s) in %s: on a working graph whose nodes were not created in name order the wrong node is addressed" % (short(tp).split("::")[-1], "a node name" if name_field else "calls: %s" % sorted(cal)[:6], cb.short), loc_str(t.span))
-                else:
-                    ctx.require(name_field or not from_pos, "R-C13-5", key, "name argument of %s is not a position" % short(tp).split("::")[-1], "%s takes a node NAME but is given a position (from %s) in %s" % (short(tp).split("::")[-1], sorted(cal & set(POS_SOURCES)), cb.short), loc_str(t.span))
+                # (the converse is not a rule: generate_graph names the nodes of the next level by their
+                # enumeration index, so a name argument may legitimately derive from `enumerate`)
     ctx.counters["graph_api_calls_with_usize_names"] = n_calls
     ctx.counters["position_arguments"] = n_pos
     ctx.floor("R-C13-5", "graph_api_calls_with_usize_names", n_calls, 5)
